@@ -93,6 +93,11 @@ def run(ck, pid="C02"):
     if broken and not ck.violations:
         ck.violation({"broken_obligations": broken, "note": "a law of the ideal tree no longer checks; no history explored diverges"}, nofail=True)
     ck.extra["input_distribution"] = dist
+    # second layer: theorems about the concrete ADF mechanisms (block buffers, priority stack, sub-node tables) tied by
+    # replaying real traces obtained through the CGNS_VERIF hooks (checks/C02b.py, notes/C02b.md)
+    if pid == "C02":
+        from checks import C02b
+        C02b.run_extra(ck)
 
 
 def replay(ck, path):
